@@ -34,7 +34,7 @@ def scenarios(tier, seed):
     sizes = (1, 2, 3, 5, 6) if tier == "quick" else (1, 2, 3, 4, 5, 6)
     for size in sizes:
         for hr in (1, 2, 3):
-            for cr in (1, 2, 3):
+            for cr in (1, 2, 3, -1):        # -1: a 'real time' cold tier (no rate limit)
                 for cold_cap in (size - 1, size, size + 3):
                     if cold_cap < 1:
                         continue
@@ -70,7 +70,8 @@ def scenarios(tier, seed):
     rng = random.Random(f"buf-{seed}")
     for _ in range(40 if tier == "quick" else 600):
         s1, s2 = rng.randint(1, 6), rng.randint(1, 6)
-        cfg = buf_cfg(rng.randint(max(s1, s2) + 1, 14), rng.randint(1, 14), rng.randint(1, 3), rng.randint(1, 3), [s1, s2])
+        cfg = buf_cfg(rng.randint(max(s1, s2) + 1, 14), rng.randint(1, 14), rng.randint(1, 3),
+                      rng.choice([1, 2, 3, 1, 2, 3, -1]), [s1, s2])
         ops = [{"op": rng.choice(["StoreHot", "StoreCold"]), "o": "a"}, {"op": rng.choice(["StoreHot", "StoreCold"]), "o": "b"}]
         for _ in range(rng.randint(1, 4)):
             ops.append({"op": rng.choice(["H2C", "C2H"])})
